@@ -96,7 +96,7 @@ pub fn cont_grid(fam: Family, s: Scalar) -> Vec<DistSpec> {
                 vec![vec![0.0, 1.0], vec![-20.0, 5.0], vec![20.0, 1e-3], vec![3.0, 0.25], vec![0.0, 5.0]]
             }
         }
-        Family::LogNormalMeanCv => vec![vec![1.0, 1.0], vec![10.0, 0.1], vec![0.5, 3.0]],
+        Family::LogNormalMeanCv => vec![vec![1.0, 1.0], vec![10.0, 0.1], vec![0.5, 3.0], vec![50.0, 0.03], vec![3.0, 0.02], vec![2.0, 0.01]],
         Family::Exp => vec![vec![1.0], vec![sm], vec![b], vec![2.5]],
         Family::Gamma => {
             let ks: Vec<f64> = if f32_ {
@@ -440,6 +440,14 @@ pub fn disc_grid(fam: Family, s: Scalar) -> Vec<DistSpec> {
                 (41, 0.25),
                 (30, 1.0 / 3.0),
                 (1u64 << 31, 0.5),
+                // p next to the rounding boundary 1 - p == 1 (2^-54) with n p of order 1
+                (100_000_000_000_000_000, 4e-17),
+                (1u64 << 56, 5.551115123125783e-17),
+                (1u64 << 56, 5.6e-17),
+                (1u64 << 57, 2.8e-17),
+                (1u64 << 55, 1.4e-16),
+                (1u64 << 60, 8e-18),
+                (1u64 << 50, 3e-15),
                 // pairs that agree in a derived constant (mode) but not in n
                 (2000, 0.5),
                 (4000, 0.25),
@@ -450,7 +458,8 @@ pub fn disc_grid(fam: Family, s: Scalar) -> Vec<DistSpec> {
             v.into_iter().map(|(n, p)| DistSpec::i(fam, &[n], &[p])).collect()
         }
         Family::Poisson => {
-            let mut l = vec![1e-3, 0.5, 5.0, 11.9, 12.0, 12.1, 20.0, 100.0, 1e4, 1e6];
+            // non-integer lambda just above the method switch: floor/fraction mistakes
+            let mut l = vec![1e-3, 0.5, 5.0, 11.9, 12.0, 12.1, 12.95, 13.9, 20.0, 20.9, 100.0, 100.5, 1e4, 1e6];
             if !f32_ {
                 l.extend([1e8, 1e15]);
             }
@@ -772,11 +781,10 @@ pub fn regime_tags(spec: &DistSpec) -> Vec<String> {
             }
         }
         Family::Zeta if p.len() == 1 => {
-            if p[0] <= 1.5 {
-                t.push("zeta:s<=1.5".into());
-            }
-            if p[0] <= 1.1 {
-                t.push("zeta:s<=1.1".into());
+            // the bias of the acceptance test is visible up to s ~ 1.5 in f32 and ~ 1.25 in f64
+            let lim = if spec.scalar == Scalar::F32 { 1.5 } else { 1.25 };
+            if p[0] <= lim {
+                t.push("zeta:s-near-1".into());
             }
         }
         Family::Frechet if p.len() == 3 => {
